@@ -427,6 +427,76 @@ func TestC07Splits(t *testing.T) {
 	}
 }
 
+// TestC07Duplex: what the peer sent must arrive while the accessory is writing on the same connection at the
+// same time (responses are read by net/http's connection goroutine while the application's goroutines send
+// event notifications and keep-alives). The peer's messages have many different lengths and are all
+// well-formed; the writer sends payloads of other lengths, so that state shared between the two
+// directions of a session is overwritten with different values if it is shared at all.
+func TestC07Duplex(t *testing.T) {
+	ctx, _, _ := fixture.SharedContext()
+	defer fixture.Cleanup()
+	var secret [32]byte
+	for i := range secret {
+		secret[i] = byte(i*5 + 9)
+	}
+	reps := stats.EnvInt("VERIF_C07_REPS", 20)
+	k, _ := stats.Shard()
+	for rep := 0; rep < reps; rep++ {
+		_, kc2a := refctl.SessionKeys(secret[:])
+		sealer := &refctl.Sealer{Key: kc2a}
+		var script []fixture.Event
+		var want []byte
+		n := 400
+		for i := 0; i < n; i++ {
+			p := filler(1+(i*53+rep*7+k)%97, uint32(i+rep))
+			want = append(want, p...)
+			script = append(script, fixture.Event{Data: sealer.SealFrame(p)})
+		}
+		conn := fixture.NewScriptConn(script)
+		conn.EOFAtEnd = true
+		hc := hap.NewConnection(conn, ctx)
+		sec, _ := hccrypto.NewSecureSessionFromSharedKey(secret)
+		ctx.GetSessionForConnection(conn).SetCryptographer(sec)
+		hc.Write([]byte("first response: switches the session to the new keys\n"))
+		stop := make(chan struct{})
+		done := make(chan struct{})
+		go func() {
+			defer close(done)
+			big := filler(8192, 3)
+			for i := 0; ; i++ {
+				select {
+				case <-stop:
+					return
+				default:
+				}
+				hc.Write(big[:1+(i*211)%len(big)])
+			}
+		}()
+		var got []byte
+		var rerr error
+		buf := make([]byte, 4096)
+		for len(got) < len(want) {
+			m, err := hc.Read(buf)
+			got = append(got, buf[:m]...)
+			if err != nil {
+				rerr = err
+				break
+			}
+		}
+		close(stop)
+		<-done
+		hc.Close()
+		stats.Case(stats.Hash("duplex", rep, k), true, []string{"duplex"}, func() interface{} {
+			return map[string]interface{}{"incoming_messages": n, "incoming_lengths": "1..97", "concurrent_writer_payloads": "1..8192 bytes", "repetition": rep}
+		})
+		if !bytes.Equal(got, want) {
+			msg := fmt.Sprintf("repetition %d: while another goroutine was writing on the connection, Read delivered %d of %d bytes the connected peer sent in well-formed frames (first difference at %d, error %v)", rep, len(got), len(want), firstDiff(got, want), rerr)
+			stats.Fail("TestC07Duplex", msg, nil)
+			t.Fatal(msg)
+		}
+	}
+}
+
 // TestC07Regress: minimal cases of the recorded findings.
 func TestC07Regress(t *testing.T) {
 	cases := []struct {
